@@ -63,7 +63,7 @@ let () = iter_lines (fun line ->
       | OBytes bs -> Buffer.add_string wire (hexbytes bs)
       | OCb None -> emit "SM:null"
       | OCb (Some b) -> emit ("SM:" ^ blob_hex b)
-      | OConnect -> emit "E:connect"
+      | OConnect -> flush (); emit "E:connect"
       | ODisc -> flush (); emit "E:disconnect"
       | OG _ -> ()) l in
     let dead = ref false in
@@ -86,7 +86,7 @@ let () = iter_lines (fun line ->
          | 'D' -> dumpq (!d).d_st
          | 'L' -> emit "|"
          | _ -> failwith ("cmd " ^ c));
-        if (!d).d_st.crashed then begin emit "CRASH"; dead := true end
+
       end end) (String.split_on_char ';' line);
     String.trim (Buffer.contents buf)
   end)
